@@ -32,7 +32,12 @@ func (k KnownFinding) matches(harness, key string) bool {
 	if k.Harness != "" && k.Harness != harness {
 		return false
 	}
-	return strings.Contains(key, k.Site)
+	for _, alt := range strings.Split(k.Site, "|") {
+		if strings.Contains(key, alt) {
+			return true
+		}
+	}
+	return false
 }
 
 func loadKnown() map[string]KnownFinding {
